@@ -63,7 +63,22 @@ claim("C19", "model_checking",
       "rpcclient.ServerProxy replaced by an in-process call with a deep copy as transport; info/url tokens are fixed (only identity matters); an error of '' counts as no error; HTTP layer outside.",
       "bounded model checking via SMT-backed symbolic execution (CrossHair/z3) over job-stage combinations", "§4 C19")
 
+claim("C05", "other",
+      "Bounded symbolic execution: documents composed from a catalogue of 20 containers x 29 leaves (C1(C2(L1) L2); every C1 with C2=none plus 12 pairs quick, all pairs and a third leaf thorough) are "
+      "parsed by the real parser, build_advanced_tree runs, then every cleaning pass in order; the repository's own validators run after the build and after every single pass, and the container "
+      "contract after the full sequence. In the attribute cubes one node's id / class / style value are symbolic strings injected right before each attribute-sensitive pass.",
+      "Fragment choices are enumerated by the solver (pinned), only the attribute strings are genuinely symbolic; tree shapes outside the fragment grammar are outside the claim; counterexamples are replayed through parse_string with the values written into the markup.",
+      "SMT-backed symbolic execution (CrossHair/z3) of the cleaning passes with symbolic node attributes + solver-enumerated document shapes, validators as oracle", "§4 C05")
+claim("C06", "other",
+      "Bounded symbolic execution of each TreeCleaner pass, called directly in cleaner_methods order (not through the catch-all): same documents as C05; for each of the passes whose code reads node "
+      "attributes (computed from the current source, 22 today) the id, class and one style declaration of one node are symbolic strings, so z3 itself produces the values that switch a pass on "
+      "('region_list', 'overflow:auto'); any exception, an ERROR report, or more than 4n^2+8 iterations of a fixed-point helper is a candidate, replayed through the real parser.",
+      "Document shapes limited to the fragment grammar (the crash in fix_paragraphs that the property text mentions needs a Paragraph whose previous sibling is a Section; no wikitext of the grammar produces that tree, so it is not found); "
+      "string-heavy passes (remove_no_print_nodes, remove_absolute_positioned_node, remove_scroll_elements) do not exhaust within the quick budget and are reported INCONCLUSIVE.",
+      "SMT-backed symbolic execution (CrossHair/z3) per pass with symbolic node attributes, concrete replay through the parser", "§4 C06")
+
 NA["C02"] = "structure law over the C++ scanner + 20 regex-driven passes: symbolic document shapes degenerate to enumerating concrete documents, no solver-decided bound of interest (DESIGN §5)"
+NA["C07"] = "losslessness is a law about document shapes x pass interactions: word identity, not word content, matters, so nothing in it is solver-relevant; making the shape symbolic degenerates into enumerating concrete documents (measured: the full 58-pass sequence under the tracer costs 0.7-4 s per path and no symbolic value reaches a branch), which is not this technique (DESIGN §4 C07)"
 NA["C08"] = "reportlab / odfpy / pdftk do the essential work (C code, floats, external processes); every input realizes immediately, nothing for a solver to decide (DESIGN §5)"
 NA["C09"] = "protection is done by backtracking regexes in CPython's C re engine (named back-reference, look-behind, lazy quantifiers): unsupported by CrossHair's regex model and by z3's RegLan; a hand-written model would not be the code (DESIGN §5)"
 
